@@ -104,7 +104,8 @@ Eff(v, o) == LET s == v[o.i]
     [] o.a = "appendSub" -> App(v, o.i, Sub(t, o.pos, o.n))                      \* v[i].append(v[j].substr(pos, n))
     [] o.a = "appendLit" -> App(v, o.i, o.lit)
     [] o.a = "pushBack" -> App(v, o.i, <<o.c>>)
-    [] o.a = "rawAppend" -> App(v, o.i, o.lit)                                   \* rawAppendStart(|lit| + n), copy, rawAppendFinish(|lit|)
+    \* rawAppendStart(|lit| + n), copy lit, rawAppendFinish(|lit|): reserving beyond maxSize raises
+    [] o.a = "rawAppend" -> IF o.n < 0 \/ Len(s) + Len(o.lit) + o.n > MaxSize THEN Raise(v) ELSE App(v, o.i, o.lit)
     [] o.a = "appendf" -> App(v, o.i, Formatted(t, o.n, o.f1))                   \* v[i].appendf(f1 ? "%s|%d" : "%s", v[j].c_str(), n)
     [] o.a = "printf" -> Set(v, o.i, Formatted(t, o.n, o.f1))                    \* v[i].Printf(...)
     [] o.a = "consume" -> LET h == HeadN(s, o.n) IN                               \* v[j] = v[i].consume(n)
